@@ -37,33 +37,40 @@ def BRel (tbl : Table) (fs : FlagMap) (inpW : Bytes) (δ d skip : Nat) (ms mw : 
 
 /-- both runs made the same step. `eoi`: a common break (`endOfInput` in both runs) is an allowed outcome;
 it then relates the two re-based machines in the frame of the remaining text debt. -/
-def LockOut (tbl : Table) (fs : FlagMap) (inpW : Bytes) (δ : Nat) (K : Nat → κ → κ → Prop) (eoi : Bool)
-    (rs rw : M κ × Option Signal) : Prop :=
+def LockOut (tbl : Table) (fs : FlagMap) (inpW : Bytes) (δ : Nat) (K : Nat → κ → κ → Prop) (Loc : κ → Nat → Nat → TextType → Prop)
+    (eoi : Bool) (rs rw : M κ × Option Signal) : Prop :=
   SPanic rs.2 ∨
   (match rs.2, rw.2 with
-   | none, none => ∃ d', BRel tbl fs inpW δ d' 0 rs.1 rw.1 ∧ K d' rs.1.x.sink rw.1.x.sink
+   | none, none => ∃ d', BRel tbl fs inpW δ d' 0 rs.1 rw.1 ∧ K d' rs.1.x.sink rw.1.x.sink ∧
+       (0 < d' → Loc rs.1.x.sink rs.1.x.prevConsumed (lexStart rs.1.r) rs.1.c.lastTextType)
    | some (.endOfInput c), some (.endOfInput c') =>
        eoi = true ∧ ∃ d', c' + d' = c + δ ∧ K d' rs.1.x.sink rw.1.x.sink ∧ rw.1.x.sim = rs.1.x.sim ∧
          rs.1.x.prevConsumed = rw.1.x.prevConsumed + δ ∧
-         (rs.1.c.isLast = false → BCore tbl fs inpW d' d' 0 rs.1 rw.1)
+         (rs.1.c.isLast = false → BCore tbl fs inpW d' d' 0 rs.1 rw.1) ∧
+         d' = 0 ∧
+         (0 < d' → Loc rs.1.x.sink rs.1.x.prevConsumed c rs.1.c.lastTextType) ∧
+         (rs.1.c.isLast = false → lexStart rs.1.r = 0)
    | some (.directive dr bm), some (.directive dr' bm') =>
        SigRel δ 0 (some (.directive dr bm)) (some (.directive dr' bm')) ∧
-       ∃ ab'', MRel δ 0 0 ab'' .none rs.1 rw.1 ∧ K 0 rs.1.x.sink rw.1.x.sink
+       ∃ ab'', MRel δ 0 0 ab'' .none rs.1 rw.1 ∧ K 0 rs.1.x.sink rw.1.x.sink ∧ ScanIdle rs.1.r
    | a, b => SigRel δ 0 a b)
 
 /-- what the split run's sink has received in a breaking step: nothing, or one text lexeme (`eoc` arm) -/
-def SinkBrk (ops : SinkOps κ) (inpS : Bytes) (d d' : Nat) (x0 : Ctx κ) (sink' : κ) : Prop :=
-  (d' = d ∧ sink' = x0.sink) ∨
-  ∃ a e tt, a < e ∧ d' = d + (e - a) ∧
-    ops.handleNonTag inpS ⟨x0.prevConsumed, ⟨a, e⟩, some (.text tt)⟩ x0.sink = (sink', .ok ())
+def SinkBrk (ops : SinkOps κ) (Loc : κ → Nat → Nat → TextType → Prop) (inpS : Bytes) (d d' : Nat) (x0 : Ctx κ) (sink' : κ)
+    (c : Nat) (tt : TextType) : Prop :=
+  (d' = d ∧ sink' = x0.sink ∧ (0 < d → Loc x0.sink x0.prevConsumed c tt)) ∨
+  ∃ a, a < c ∧ d' = d + (c - a) ∧
+    ops.handleNonTag inpS ⟨x0.prevConsumed, ⟨a, c⟩, some (.text tt)⟩ x0.sink = (sink', .ok ()) ∧
+    (0 < d → Loc x0.sink x0.prevConsumed a tt)
 
 /-- the split run broke at the end of its input; `mw0` is the whole machine before the step (after its
 enter actions); `x0`: the split machine's context after its enter actions -/
-def BreakOut (tbl : Table) (fs : FlagMap) (ops : SinkOps κ) (inpS inpW : Bytes) (δ d : Nat)
+def BreakOut (tbl : Table) (fs : FlagMap) (ops : SinkOps κ) (Loc : κ → Nat → Nat → TextType → Prop) (inpS inpW : Bytes) (δ d : Nat)
     (x0 : Ctx κ) (mw0 : M κ) (rs : M κ × Option Signal) : Prop :=
   SPanic rs.2 ∨ ∃ c d' skip', rs.2 = some (.endOfInput c) ∧
     BCore tbl fs inpW (δ + c) d' skip' rs.1 mw0 ∧
-    rs.1.x.sim = x0.sim ∧ rs.1.x.prevConsumed = x0.prevConsumed ∧ SinkBrk ops inpS d d' x0 rs.1.x.sink
+    rs.1.x.sim = x0.sim ∧ rs.1.x.prevConsumed = x0.prevConsumed ∧
+    SinkBrk ops Loc inpS d d' x0 rs.1.x.sink c rs.1.c.lastTextType ∧ lexStart rs.1.r = 0
 
 theorem MRel.toBreakRel {δ d skip : Nat} {ab : Ab} {sm : SeqMode} {ms mw : M κ} (h : MRel δ d skip ab sm ms mw) :
     BreakRel δ d skip ab sm ms mw := ⟨h.c, h.r, h.sim⟩
@@ -105,13 +112,14 @@ structure StOk (tbl : Table) (fs : FlagMap) (st : StateId) (sd : StateDef) : Pro
   debt : hasEoc sd = true → sd.enter.isEmpty = true ∧ (fs st).2 = Ab.none ∧ (fs st).1 = Ab.none ∧ hasSeq sd = false ∧
     ∀ a ∈ sd.arms, debtArmOk a = true
   mem : sd.memchr.isSome = true → hasSeq sd = false
+  eocF : hasEoc sd = true → eocFirst sd.arms = true
 
 theorem stOk_of {tbl : Table} {fs : FlagMap} {st : StateId} {sd : StateDef} (h : stateOk tbl fs st sd = true) :
     StOk tbl fs st sd := by
   unfold stateOk at h
   simp only [Bool.and_eq_true, Bool.not_eq_true', Bool.or_eq_true, List.all_eq_true, beq_iff_eq] at h
-  obtain ⟨⟨⟨⟨⟨⟨⟨h1, h2⟩, h3⟩, h4⟩, h5⟩, h6⟩, h7⟩, h8⟩ := h
-  refine ⟨h1, h2, fun g => ?_, fun g => ?_, fun g => ?_, fun g => ?_, h6, fun g => ?_, fun g => ?_⟩
+  obtain ⟨⟨⟨⟨⟨⟨⟨⟨h1, h2⟩, h3⟩, h4⟩, h5⟩, h6⟩, h7⟩, h8⟩, h9⟩ := h
+  refine ⟨h1, h2, fun g => ?_, fun g => ?_, fun g => ?_, fun g => ?_, h6, fun g => ?_, fun g => ?_, fun g => ?_⟩
   · rcases h3 with h3 | h3
     · rw [g] at h3; cases h3
     · exact h3
@@ -133,6 +141,9 @@ theorem stOk_of {tbl : Table} {fs : FlagMap} {st : StateId} {sd : StateDef} (h :
   · rcases h8 with h8 | h8
     · rw [Option.isNone_iff_eq_none] at h8; rw [h8] at g; cases g
     · exact h8
+  · rcases h9 with h9 | h9
+    · unfold hasEoc at g; rw [g] at h9; cases h9
+    · exact h9
 
 /-- static context of a step: the current state, its definition and the table facts -/
 structure StepCtx (tbl : Table) (fs : FlagMap) (st : StateId) (sd : StateDef) (c : Common) : Prop where
@@ -157,7 +168,7 @@ theorem StepCtx.of_cfix {tbl : Table} {fs : FlagMap} {st : StateId} {sd : StateD
   ⟨cx.look, cx.ok, cx.wf, by rw [h.2.2.1]; exact cx.st_eq, by rw [h.2.2.2]; exact cx.ent⟩
 
 section
-variable {env : Env κ} {inpS inpW : Bytes} {δ : Nat} {K : Nat → κ → κ → Prop}
+variable {env : Env κ} {inpS inpW : Bytes} {δ : Nat} {K : Nat → κ → κ → Prop} {Loc : κ → Nat → Nat → TextType → Prop}
 
 /-- the flags valid at the entry of a state, as the boundary relation wants them -/
 theorem flagsOf_entry {tbl : Table} {fs : FlagMap} (hwf : WfChunkWith tbl fs = true) (c : Common) (he : c.entered = false) :
@@ -181,7 +192,7 @@ theorem BSide.plain {tbl : Table} (inpW : Bytes) (cs : Common) (npw : Nat) : BSi
 /-- related signals (with the machine relation on a directive change) as a step outcome -/
 theorem lockOut_of_sig {tbl : Table} {fs : FlagMap} {eoi : Bool} {ms mw : M κ} {sg sg' : Signal}
     (hs : SigRel δ 0 (some sg) (some sg')) (hdir : DirOk δ K (ms, some sg) (mw, some sg')) :
-    LockOut tbl fs inpW δ K eoi (ms, some sg) (mw, some sg') := by
+    LockOut tbl fs inpW δ K Loc eoi (ms, some sg) (mw, some sg') := by
   right
   cases sg with
   | err e => cases sg' <;> first | exact hs | exact hs.elim
@@ -196,7 +207,7 @@ theorem lockOut_of_sig {tbl : Table} {fs : FlagMap} {eoi : Bool} {ms mw : M κ} 
 theorem body_to_lock {fs : FlagMap} {st : StateId} {sd : StateDef} {c0 : Common} {eoi : Bool}
     (cx : StepCtx env.tbl fs st sd c0) {rs rw : M κ × Option Signal × SeqEnd}
     (hb : BodySim δ K fs st true c0 rs rw) :
-    LockOut env.tbl fs inpW δ K eoi (rs.1, rs.2.1) (rw.1, rw.2.1) := by
+    LockOut env.tbl fs inpW δ K Loc eoi (rs.1, rs.2.1) (rw.1, rw.2.1) := by
   rcases hb with hp | ⟨hs, hend, hdir, hm⟩
   · exact Or.inl hp
   · cases hrs : rs.2.1 with
@@ -214,7 +225,7 @@ theorem body_to_lock {fs : FlagMap} {st : StateId} {sd : StateDef} {c0 : Common}
       obtain ⟨hk, hcase⟩ := hm hrs
       right
       simp only
-      refine ⟨0, ?_, hk⟩
+      refine ⟨0, ?_, hk, fun hh => absurd hh (Nat.lt_irrefl 0)⟩
       cases hse : rs.2.2 with
       | transitioned =>
         rw [hse] at hcase
@@ -245,11 +256,17 @@ theorem leaveSeq_enterSeq_r (m : M κ) : (leaveSeq (enterSeq m)).r = (leaveSeq m
 theorem leaveSeq_r_congr {m m' : M κ} (h : m'.r = m.r) : (leaveSeq m').r = (leaveSeq m).r := by
   obtain ⟨c, r, x⟩ := m; obtain ⟨c', r', x'⟩ := m'; simp only at h; subst h; cases r' <;> rfl
 
+theorem LexRel.mono_np {δ d np np' : Nat} {ab : Ab} {ls lw : LexRegs} (hl : LexRel δ d ab np ls lw) (hk : np ≤ np') :
+    LexRel δ d ab np' ls lw :=
+  { hl with ls_le := Nat.le_trans hl.ls_le hk, p := fun g => Nat.le_trans (hl.p g) hk,
+            ntu := fun g n hn => leNonTag_mono hk (hl.ntu g n hn),
+            ntp := fun g g' n hn => leNonTag_mono (Nat.sub_le_sub_right hk 1) (hl.ntp g g' n hn) }
+
 theorem RegsRel.mono_np {δ d np np' : Nat} {ab : Ab} {rs rw : Regs} (h : RegsRel δ d ab .none np rs rw) (hk : np ≤ np') :
     RegsRel δ d ab .none np' rs rw := by
   cases rs <;> cases rw
   · have hl : LexRel δ d ab np _ _ := h
-    exact { hl with ls_le := Nat.le_trans hl.ls_le hk, p := fun g => Nat.le_trans (hl.p g) hk }
+    exact hl.mono_np hk
   · exact h
   · exact h
   · obtain ⟨h1, h2, h3⟩ := h
@@ -272,8 +289,7 @@ theorem advLeave_sim {δ d : Nat} {ab : Ab} {sm : SeqMode} {ms mw : M κ} (h : M
       have hl : LexRel δ d ab cs.nextPos ls lw := hr
       refine ⟨{ hc with nextPos := by show cw.nextPos + k + 0 = cs.nextPos + k + δ; simp only at hnp; omega }, ?_, hsim, hpc⟩
       show LexRel δ d ab (cs.nextPos + k) ls lw
-      exact { hl with ls_le := Nat.le_trans hl.ls_le (Nat.le_add_right _ _),
-                      p := fun g => Nat.le_trans (hl.p g) (Nat.le_add_right _ _) }
+      exact hl.mono_np (Nat.le_add_right _ _)
   | scanner ss =>
     cases rw with
     | lexer lw => exact hr.elim
@@ -289,7 +305,7 @@ theorem advLeave_sim {δ d : Nat} {ab : Ab} {sm : SeqMode} {ms mw : M κ} (h : M
                         fun t ht => Nat.le_trans ((h3.p g).2 t ht) (Nat.le_add_right _ _)⟩ }
 
 section
-variable {env : Env κ} {inpS inpW : Bytes} {δ : Nat} {K : Nat → κ → κ → Prop}
+variable {env : Env κ} {inpS inpW : Bytes} {δ : Nat} {K : Nat → κ → κ → Prop} {Loc : κ → Nat → Nat → TextType → Prop}
 
 /-- the first comparison + look-ahead of a sequence arm -/
 def firstOf (inp : Bytes) (ch : Option UInt8) (e0 : UInt8) (es : List UInt8) (ic il : Bool) (np : Nat) : SeqMatch :=
@@ -325,7 +341,7 @@ theorem first_sim (F : Frame inpS inpW δ) (ch : Option UInt8) (e0 : UInt8) (es 
 end
 
 section
-variable {env : Env κ} {inpS inpW : Bytes} {δ : Nat} {K : Nat → κ → κ → Prop}
+variable {env : Env κ} {inpS inpW : Bytes} {δ : Nat} {K : Nat → κ → κ → Prop} {Loc : κ → Nat → Nat → TextType → Prop}
 
 theorem chSeqOf_none_of_rel {δ d skip : Nat} {ab : Ab} {ms mw : M κ} (h : MRel δ d skip ab .none ms mw) :
     chSeqOf ms.r = none ∧ chSeqOf mw.r = none := by
@@ -338,6 +354,38 @@ theorem chSeqOf_none_of_rel {δ d skip : Nat} {ab : Ab} {ms mw : M κ} (h : MRel
   · exact hr.elim
   · exact hr.2.2
 
+/-- with a text debt the machine is the lexer, whose consumed byte count is its lexeme start -/
+theorem consumed_lexStart {d skip : Nat} {ab : Ab} {sm : SeqMode} {ms mw : M κ} (h : MRel δ d skip ab sm ms mw) (hd : 0 < d) :
+    consumedByteCount inpS ms = lexStart ms.r := by
+  obtain ⟨_, hr, _, _⟩ := h
+  obtain ⟨cs, rs, xs⟩ := ms
+  obtain ⟨cw, rw, xw⟩ := mw
+  cases rs with
+  | lexer ls => rfl
+  | scanner ss =>
+    cases rw with
+    | lexer lw => exact hr.elim
+    | scanner sw => have := hr.1; omega
+
+/-- what a (non-last) break returns -/
+theorem break_facts (inp : Bytes) (m : M κ) (hl : m.c.isLast = false) {c : Nat}
+    (h : (breakOnEndOfInput inp m).2 = some (.endOfInput c)) :
+    c = consumedByteCount inp m ∧ lexStart (breakOnEndOfInput inp m).1.r = 0 ∧
+      (breakOnEndOfInput inp m).1.c.lastTextType = m.c.lastTextType := by
+  rw [breakOnEndOfInput_eq inp m hl] at h ⊢
+  split at h
+  · cases h
+  · rename_i hu
+    rw [if_neg hu]
+    simp only [Option.some.injEq, Signal.endOfInput.injEq] at h
+    refine ⟨h.symm, ?_, by simp only [adjust_c]⟩
+    simp only
+    unfold adjustForNextInput
+    obtain ⟨cm, r, x⟩ := m
+    cases r with
+    | lexer l => rfl
+    | scanner sc => simp only; split <;> rfl
+
 /-- `break_split`, packaged as a `BreakOut` -/
 theorem breakOut_of_split {fs : FlagMap} {st : StateId} {sd : StateDef} {d0 d : Nat} {sm : SeqMode} {ms mw mw0 : M κ}
     (cx : StepCtx env.tbl fs st sd ms.c) (h : MRel δ d 0 (fs st).2.inStep sm ms mw) (hl : ms.c.isLast = false)
@@ -347,8 +395,8 @@ theorem breakOut_of_split {fs : FlagMap} {st : StateId} {sd : StateDef} {d0 d : 
     (hc0 : mw0.c = { mw.c with nextPos := npw0 }) (hx0 : mw0.x = mw.x) (hr0 : (leaveSeq mw0).r = (leaveSeq mw).r)
     (hq0 : hasSeq sd = false → chSeqOf mw0.r = none)
     (x0 : Ctx κ) (hsim0 : ms.x.sim = x0.sim) (hpc0 : ms.x.prevConsumed = x0.prevConsumed)
-    (hsink : SinkBrk env.ops inpS d0 d x0 ms.x.sink) :
-    BreakOut env.tbl fs env.ops inpS inpW δ d0 x0 mw0 (breakOnEndOfInput inpS ms) := by
+    (hsink : SinkBrk env.ops Loc inpS d0 d x0 ms.x.sink (consumedByteCount inpS ms) ms.c.lastTextType) :
+    BreakOut env.tbl fs env.ops Loc inpS inpW δ d0 x0 mw0 (breakOnEndOfInput inpS ms) := by
   have hsm' : sm ≠ .stale := by
     rcases hsm with h | ⟨h, _⟩ <;> rw [h] <;> intro hh <;> cases hh
   have hout : (if hasSeq sd = true then SeqMode.stale else SeqMode.none) = .stale ∨
@@ -363,8 +411,9 @@ theorem breakOut_of_split {fs : FlagMap} {st : StateId} {sd : StateDef} {d0 d : 
       · rw [hhs] at h'; cases h'
   rcases break_split (inpS := inpS) h rfl hl (fun g => cx.ok.sn2 g) hsm' npw0 hnp hc0 hx0 hr0 _ hout with hp | ⟨c, hsig, hbr, hx, hst, hent, hc1⟩
   · exact Or.inl hp
-  · refine Or.inr ⟨c, d, ms.c.nextPos - 1 + δ - npw0, hsig, ⟨(if hasSeq sd = true then SeqMode.stale else SeqMode.none), ?_, ?_⟩,
-      by rw [hx]; exact hsim0, by rw [hx]; exact hpc0, by rw [hx]; exact hsink⟩
+  · obtain ⟨bf1, bf2, bf3⟩ := break_facts inpS ms hl hsig
+    refine Or.inr ⟨c, d, ms.c.nextPos - 1 + δ - npw0, hsig, ⟨(if hasSeq sd = true then SeqMode.stale else SeqMode.none), ?_, ?_⟩,
+      by rw [hx]; exact hsim0, by rw [hx]; exact hpc0, by rw [hx, bf1, bf3]; exact hsink, bf2⟩
     · rw [cx.flagsOf hst hent]
       rw [Ab.inStep_boundary cx.ok.p2] at hbr
       exact hbr
